@@ -79,3 +79,37 @@ Proof.
   rewrite ?F10, ?F11, ?F12, ?F13, ?L10, ?L11, ?L12, ?L13 in *.
   rewrite Q1, Q2, Q3, Q4, O1, B1, B2, B3. repeat split; reflexivity.
 Qed.
+
+(** ---------------------------------------------------------------- a whole first resolve() (LayeredStep) *)
+From CGV Require Import Resolve.Pipeline Resolve.PipelineFull Compose.LayeredStep.
+
+Example coarse_step_returned_executed :
+  get_node_attributes (base_of exC') (S "atomname") = [] /\
+  match resolve_step_full true false (fragdict_of exC') (base_of exC') None with
+  | Ok fo => is_baseb (perm_cut exC exC') (next_meta (fo_mol fo)) = true /\
+             skeletonb exC' false (fo_mol fo) = true /\ node_keys (fo_mol fo) = [0; 1; 2]
+  | Err _ => False
+  end.
+Proof. vm_compute. auto. Qed.
+
+Example compose_flat_returned_nonvacuous : forall aa : bool,
+  exists fo l2 f2,
+    resolve_step_full true false (fragdict_of exC') (base_of exC') None = Ok fo /\
+    skeleton (perm_cut exC exC') aa l2 /\ skeleton exC aa f2 /\
+    edge_get l2 2 0 (S "order") = edge_get f2 3 4 (S "order") /\ has_edge l2 4 3 = has_edge f2 1 0.
+Proof.
+  intros aa. destruct exC_hypotheses as (H1 & H2 & H3). destruct exC'_hypotheses as (H1' & H2' & H3' & _ & _).
+  destruct (compose_flat_returned exC exC' (fragdict_of exC') (base_of exC') (fragdict_of exC) (base_of exC) aa None
+              (wf_cutb_sound _ H1) (wf_cutb_sound _ H1') exC'_coarse (templates_okb_sound _ _ H2') (is_baseb_sound _ _ H3') eq_refl
+              (templates_okb_sound _ _ H2) (is_baseb_sound _ _ H3))
+    as (fo & l1 & lfg1 & l2 & lfg2 & f1 & ffg1 & f2 & ffg2 & Efo & _ & Skl & _ & _ & _ & Skf & Eq & _).
+  { intros _ x Hx. cbn in Hx. repeat destruct Hx as [<-|Hx]; try contradiction; split; eexists; vm_compute; reflexivity. }
+  exists fo, l2, f2. split; [exact Efo|]. split; [exact Skl|]. split; [exact Skf|].
+  assert (I : forall x, In x [11; 10; 15; 12; 13; 14] -> In x (flat exC)) by (intros x Hx; exact Hx).
+  assert (PF : phi exC 11 = 0 /\ phi exC 10 = 1 /\ phi exC 12 = 3 /\ phi exC 13 = 4) by (vm_compute; auto).
+  assert (PL : phi (perm_cut exC exC') 11 = 3 /\ phi (perm_cut exC exC') 10 = 4 /\ phi (perm_cut exC exC') 12 = 2 /\ phi (perm_cut exC exC') 13 = 0) by (vm_compute; auto).
+  destruct PF as (F11 & F10 & F12 & F13). destruct PL as (L11 & L10 & L12 & L13).
+  destruct (Eq 12 13 ltac:(apply I; cbn; tauto) ltac:(apply I; cbn; tauto)) as (_ & Q1).
+  destruct (Eq 10 11 ltac:(apply I; cbn; tauto) ltac:(apply I; cbn; tauto)) as (Q2 & _).
+  rewrite ?F10, ?F11, ?F12, ?F13, ?L10, ?L11, ?L12, ?L13 in *. split; assumption.
+Qed.
